@@ -14,7 +14,7 @@ def rules_for(prop):
         return g
     table = {
         "C01": [ag.rule_ag1, ag.rule_ag2, ag.rule_ag3_small, scan.rule_sc1, tm.rule_tm4],
-        "C02": st.RULES,
+        "C02": st.RULES + [ms.rule_ms],
         "C03": mx.RULES,
         "C04": [named(grp.rule_eq1, files=("rxsci/operators/group_by.py", "rxsci/state/memory_store.py", "rxsci/state/store.py",
                                            "rxsci/operators/multiplex.py"), min_instances=12), named(grp.rule_fw1, heads=("group_by",)), grp.rule_fl1,
@@ -61,7 +61,7 @@ EXPLANATION = {
     "C02": _COMMON + "Decided clauses: ST-1 mux handlers write no closure data outside the Probe branch; ST-2 every state id is add_key'd "
            "on every creation path; ST-3 indices used during a lifetime are included in those initialised at creation (affine index sets "
            "key[0], key[0]*D+[0,D)); ST-4 no use after del_key; ST-5 tee_map join table reset covers the slots written; ST-6 injective child "
-           "indices; WC-1 frame condition on the store. Not decided: values; user closures.",
+           "indices; WC-1 frame condition on the store; MS-1..5 add_key/del_key/set/get of the memory store (re-initialisation at creation). Not decided: values; user closures.",
     "C03": _COMMON + "Per-operator protocol preservation for the 32 MuxObservable construction sites: MX-1..4 per-kind lifecycle "
            "obligations, LV typestate of child keys in the five grouping heads (ghost state P = liveness downstream, S = liveness recorded in "
            "the store, invariant S = P while the parent is live), MX-5 sandwich and demux, MX-6 root, MX-7 tee_map de-duplication, MX-8 "
@@ -87,7 +87,7 @@ EXPLANATION = {
            "accumulators do not mutate items or free state and mappers downstream of a scan do not mutate the live accumulator.",
     "C10": _COMMON + "Decided clauses: FW-2 per-path emission multiplicity and bookkeeping of first, take (countdown > 0, minus exactly 1), "
            "last, pad_start/pad_end, start_with, lag(1)/lag(n), distinct; DP-6 batch flag is len(batch) == batch_size on every path and the "
-           "terminator's flag depends on the pending batch; DP-8 seed slots compared by value are private markers; EQ-1. Not decided: sort.",
+           "terminator's flag depends on the pending batch; DP-8 seed slots compared by value are private markers; SO-1 sort delegates to one stable sorted(items, key=key, reverse=reverse); EQ-1.",
     "C11": _COMMON + "Decided clauses: PR-1 no scheduler/timer/thread call outside the three sources and every emission is made inside a "
            "handler; PR-2 the set of completion-time emitters is exactly scan(reduce/terminator), last, pad_end (plus named plain codecs); "
            "PR-3 windows/segments are completed while their closing item is handled; DP-6; ST-1 (no buffering of items in closures).",
